@@ -8,6 +8,20 @@ import subprocess
 from vlib.common import run
 
 TAGS = [b"<s>", b"</s>", b"<unk>"]
+CLASS_TAGS = [b"<num>", b"<url>"]
+EQ_TAGS = [b"<nm>", b"<ur>", b"<s_>"]       # four bytes, like the w%03d words of the equal-length inputs
+
+
+def all_tag_ngram(rng, k, equal_len):
+    """an n-gram of order k >= 2 consisting of tags only: `<s> <num>`, `<url> </s>`, `<s> </s>` ..."""
+    if equal_len:
+        return b" ".join(rng.choice(EQ_TAGS) for _ in range(k))
+    mid = [rng.choice(CLASS_TAGS + [b"<unk>"]) for _ in range(k)]
+    if rng.random() < 0.6:
+        mid[0] = b"<s>"
+    if rng.random() < 0.5:
+        mid[-1] = b"</s>"
+    return b" ".join(mid)
 ODD = [b"<", b">", b"<>", b"<x", b"x>", b"<a>", b"a<b>", b"<<", b">a<", b"\xc3\xa9t\xc3\xa9", b"a\x0bb", b"#x", b"\\1"]
 
 
@@ -64,6 +78,8 @@ def gen_arpa(rng, words, counts, equal_len=False, with_tags=True, cr=False, comm
         lines = []
         for _ in range(c):
             ng = b" ".join(rng.choice(vocab) for _ in range(i + 1))
+            if i >= 1 and rng.random() < 0.1:
+                ng = all_tag_ngram(rng, i + 1, equal_len)
             ln = fmt_prob(rng, equal_len) + b"\t" + ng
             if i + 1 < len(counts) or rng.random() < 0.1:
                 ln += b"\t" + fmt_prob(rng, equal_len)
@@ -81,6 +97,8 @@ def gen_raw(rng, words, n, equal_len=False, last_newline=True):
     for _ in range(n):
         k = 2 if equal_len else rng.choice([1, 2, 2, 3, 4])
         ng = b" ".join(rng.choice(vocab) for _ in range(k))
+        if k >= 2 and rng.random() < 0.1:
+            ng = all_tag_ngram(rng, k, equal_len)
         r = rng.random()
         if equal_len:
             ln = ng + b"\t%03d" % rng.randrange(1000)
@@ -421,15 +439,24 @@ def py_must(sents, line, fmt, context):
     return [s for s, ph in enumerate(sents) if py_tiles(ph, ws)]
 
 
-def gen_phrase_file(rng, messy=True):
+PH_LONG = [b"e", b"f", b"g", b"h", b"i", b"j", b"k", b"l", b"m", b"n", b"o", b"p"]
+
+
+def gen_phrase_file(rng, messy=True, max_order=6):
     nsent = rng.choice([1, 2, 3, 4, 6, 7])
     lines = []
-    for _ in range(nsent):
+    long_at = rng.randrange(nsent) if rng.random() < 0.6 else -1
+    for si in range(nsent):
         nph = rng.choice([1, 1, 2, 2, 3, 4])
         phs = []
         for _ in range(nph):
             k = rng.choice([1, 1, 1, 2, 2, 3])
             phs.append(b" ".join(rng.choice(PH_ALPHA[:5]) for _ in range(k)))
+        if si == long_at:
+            # one phrase of at least KENLM_MAX_ORDER words whose words occur nowhere else: its parts can only be
+            # read off this phrase (the FindSubstring path of BuildGraph)
+            k = max_order + rng.choice([0, 0, 1, 3])
+            phs.insert(rng.randrange(len(phs) + 1), b" ".join(rng.sample(PH_LONG, min(k, len(PH_LONG)))))
         sep = b"\t"
         ln = sep.join(phs)
         if messy and rng.random() < 0.15:
@@ -455,7 +482,12 @@ def gen_phrase_ngrams(rng, sents, n_per_order, max_order):
         for _ in range(n_per_order[o]):
             r = rng.random()
             ws = None
-            if sents and r < 0.65:
+            longs = [p for ph in sents for p in ph if len(p) >= o + 1 and len(p) >= 5]
+            if longs and r < 0.3:
+                p = rng.choice(longs)
+                st = rng.randrange(0, len(p) - o)
+                ws = list(p[st:st + o + 1])
+            elif sents and r < 0.65:
                 ph = rng.choice(sents)
                 cat = []
                 for _ in range(rng.randrange(1, 5)):
@@ -465,6 +497,8 @@ def gen_phrase_ngrams(rng, sents, n_per_order, max_order):
                     ws = cat[st:st + o + 1]
             if ws is None:
                 ws = [rng.choice(PH_ALPHA) for _ in range(o + 1)]
+            if o >= 1 and rng.random() < 0.05:
+                ws = all_tag_ngram(rng, o + 1, False).split(b" ")
             if o >= 1 and rng.random() < 0.12:
                 ws[0] = b"<s>"
             if o >= 1 and rng.random() < 0.12:
@@ -570,17 +604,20 @@ def check_phrase_output(tool_bytes, must_bytes, fmt, in_sections):
     return None
 
 
+KENLM_MAX_ORDER = 6     # overwritten by the checks with the regenerated constant (tools/probe_C11.cc)
+
+
 def gen_phrase_case(rng, tier):
     """a phrase-mode case: dict(mode, context, fmt, vocab, model, in_sections, sents, phrase=True)"""
     r = rng.random()
     if r < 0.2:
         vocab = SEEDED_PHRASES
     elif r < 0.3:
-        vocab = SEEDED_PHRASES + gen_phrase_file(rng)
+        vocab = SEEDED_PHRASES + gen_phrase_file(rng, max_order=KENLM_MAX_ORDER)
     else:
-        vocab = gen_phrase_file(rng)
+        vocab = gen_phrase_file(rng, max_order=KENLM_MAX_ORDER)
     sents = parse_phrase_file(vocab)
-    max_order = rng.choice([3, 4, 4, 5])
+    max_order = rng.choice([3, 4, 5, KENLM_MAX_ORDER, KENLM_MAX_ORDER])
     cap = 14 if tier == "quick" else 40
     counts = [rng.randrange(1, cap) for _ in range(max_order)]
     orders = gen_phrase_ngrams(rng, sents, counts, max_order)
